@@ -10,6 +10,7 @@ import (
 	"fmt"
 	"os"
 	"reflect"
+	"regexp"
 	"sort"
 	"strings"
 
@@ -37,9 +38,41 @@ type Op struct {
 	Plain    bool        `json:"plain,omitempty"`     // inside a global-transaction segment: use a context WITHOUT the xid for this operation
 	ReadOnly bool        `json:"read_only,omitempty"` // begin: sql.TxOptions
 	Iso      int         `json:"iso,omitempty"`       // begin: sql.IsolationLevel (0 default)
+	// Fault (operations of segments without a global transaction only): a one-shot database fault armed right before
+	// the operation and disarmed after it, identical in every run: action error | after | drop at the operation's own
+	// call (COMMIT / ROLLBACK / BEGIN, or the call carrying the statement's verbatim text; skip=1: its second call,
+	// i.e. the STMT_EXEC / STMT_QUERY after the PREPARE)
+	Fault *OpFault `json:"fault,omitempty"`
 	// filled by Describe:
 	Expect  string `json:"expect,omitempty"`   // the operation lies in the input predicate of a listed finding: "<pred>=<expected error class>" (fails, no effect)
 	SQLType string `json:"sql_type,omitempty"` // identifier of the repo's types.SQLType constant the repo's own parser assigns ("unparsed" when it rejects the text)
+}
+
+// OpFault: see Op.Fault.
+type OpFault struct {
+	Action string `json:"action"`
+	Skip   int    `json:"skip,omitempty"`
+}
+
+func faultStep(o Op) *atrun.Step {
+	if o.Fault == nil {
+		return nil
+	}
+	f := fakedb.Fault{Action: o.Fault.Action, Skip: o.Fault.Skip, Count: 1}
+	switch o.K {
+	case "begin":
+		f.Kinds = []string{fakedb.JBegin}
+	case "commit":
+		f.Kinds = []string{fakedb.JCommit}
+	case "rollback":
+		f.Kinds = []string{fakedb.JRollback}
+	default:
+		if o.SQL == "" {
+			return nil
+		}
+		f.Pattern = "^" + regexp.QuoteMeta(o.SQL) + "$"
+	}
+	return &atrun.Step{Op: "db_fault", Fault: &f}
 }
 
 // Segment is a run of ops outside (Gtx=false) or inside one committed global transaction.
@@ -164,7 +197,14 @@ func Scenario(p *Program, mode string) atrun.Scenario {
 	for _, sg := range p.Segs {
 		if !sg.Gtx {
 			for _, o := range sg.Ops {
+				fs := faultStep(o)
+				if fs != nil {
+					sc.Steps = append(sc.Steps, *fs)
+				}
 				sc.Steps = append(sc.Steps, conv(o))
+				if fs != nil {
+					sc.Steps = append(sc.Steps, atrun.Step{Op: "db_fault_clear"})
+				}
 			}
 			continue
 		}
@@ -366,10 +406,17 @@ func observe(p *Program, mode string) *ModeObs {
 	for _, sg := range p.Segs {
 		if !sg.Gtx {
 			for _, o := range sg.Ops {
+				faulted := faultStep(o) != nil
+				if faulted {
+					si++
+				}
 				if si < len(tr.Steps) {
 					add(tr.Steps[si], o, true)
 				}
 				si++
+				if faulted {
+					si++
+				}
 			}
 			continue
 		}
@@ -585,11 +632,17 @@ func RunProgram(p Program) Case {
 			if o.Plain {
 				feat["in.plain-ctx-stmt"] = true
 			}
+			if o.Fault != nil {
+				feat["fault.stmt."+o.Fault.Action] = true
+			}
 			if o.Expect != "" {
 				feat["finding."+strings.SplitN(o.Expect, "=", 2)[0]] = true
 			}
 		} else {
 			feat[g+".tx-"+o.K] = true
+			if o.Fault != nil {
+				feat["fault."+o.K+"."+o.Fault.Action] = true
+			}
 			if o.ReadOnly || o.Iso != 0 {
 				feat["tx-options"] = true
 			}
